@@ -644,4 +644,7 @@ VARIANTS += [
     silent('r10-twin-tree-helper-for-dropped-rules', ['C01', 'C05'], [(PA, "    def _build_tree(self, tree: lark.Tree) -> models.RawTreeModel:", "    @staticmethod\n    def _is_helper(node: lark.Token | lark.Tree) -> bool:\n        return isinstance(node, lark.Tree) and node.data.endswith('_')\n\n    def _build_tree(self, tree: lark.Tree) -> models.RawTreeModel:"), (PA, "            elif is_tree and child.data.endswith('_'):", "            elif self._is_helper(child):"), (PA, "            if not (isinstance(child, lark.Tree) and child.data.endswith('_'))\n        ]", "            if not self._is_helper(child)\n        ]")]),
     fire('r10-build-no-final-gap-for-inline', ['C01'], [(PA, "        self._fix_gap(len(self._tokens))\n        self._token_store.insert_after", "        if not model_type.INLINE:\n            self._fix_gap(len(self._tokens))\n        self._token_store.insert_after")], 'TREE-SEM'),
     fire('r10-ignored-line-blank-before-eol', ['C15'], [('autobean_refactor/models/generated/ignored_line.py', "from ..spacing import Newline\n", "from ..spacing import Newline, Whitespace\n"), ('autobean_refactor/models/generated/ignored_line.py', "            *ignored.detach(),\n            *eol.detach(),", "            *ignored.detach(),\n            Whitespace.from_default(),\n            *eol.detach(),")], 'SEP-LEX'),
+    fire('r10-find-inner-loop-negated', ['C14'], [(IC, "            while token is not None and token is not end:", "            while not (token is not None and token is not end):")], 'FIND-SEM'),
+    fire('r10-find-inner-stops-at-claimed', ['C14'], [(IC, "                if prev_token.claimed:\n                    continue\n                self._comments_to_claim.discard(id(prev_token))\n                yield prev_token\n            yield item", "                if prev_token.claimed:\n                    break\n                self._comments_to_claim.discard(id(prev_token))\n                yield prev_token\n            yield item")], 'FIND-SEM'),
+    silent('r10-twin-find-inner-store-local', ['C14'], [(IC, "                prev_token, token = token, self._repeated.token_store.get_next(token)", "                prev_token, token = token, token_store.get_next(token)")]),
 ]
